@@ -1866,3 +1866,234 @@ pub fn generate(c: &mut Choices, profile: Profile) -> Program
 {
 	Gen::new(c, profile).program()
 }
+
+// ---------------------------------------------------------------- C10 helpers
+
+/// constants initialised with expressions (referring to each other in any
+/// order), each mirrored by a local variable with the same initialiser
+pub fn const_program(c: &mut Choices) -> Program
+{
+	let mut g = Gen::new(c, Profile::exec());
+	g.scopes.push(Vec::new());
+	g.in_const = true;
+	let n = 2 + g.c.draw(7);
+	for i in 0..n
+	{
+		let ty = if g.c.chance(1, 5) { Prim::Usize } else { g.pick_int() };
+		g.budget = 4 + g.c.draw(30);
+		let depth = 1 + g.c.draw(5);
+		let init = g.expr(ty, depth, true);
+		g.prog.consts.push(ConstDecl {
+			name: format!("C{}", i),
+			ty: Ty::Prim(ty),
+			init,
+			public: false,
+		});
+	}
+	g.in_const = false;
+	let mut body = Vec::new();
+	for i in 0..n
+	{
+		let k = g.prog.consts[i].clone();
+		let ty = k.ty.prim().unwrap();
+		body.push(Stmt::Var {
+			name: format!("v{}", i),
+			ty: k.ty.clone(),
+			annotate: true,
+			init: Some(k.init.clone()),
+		});
+		body.push(Stmt::Print(vec![
+			Expr::Read(Place::var(&k.name), Ty::Prim(ty)),
+			Expr::Str(b" ".to_vec()),
+			Expr::Read(Place::var(&format!("v{}", i)), Ty::Prim(ty)),
+			Expr::Str(b"\n".to_vec()),
+		]));
+	}
+	g.prog.funcs.push(FuncDecl {
+		name: "main".into(),
+		params: Vec::new(),
+		ret: Some(Prim::I32),
+		body,
+		ret_expr: Some(lit(0, Prim::I32)),
+		public: false,
+		external: false,
+		head_only: false,
+	});
+	// any top-level order: constants may refer to later ones
+	let mut order: Vec<Top> = (0..n).map(Top::Const).collect();
+	order.push(Top::Func(0));
+	for i in (1..order.len()).rev()
+	{
+		let j = g.c.draw(i + 1);
+		order.swap(i, j);
+	}
+	g.prog.order = order;
+	g.prog
+}
+
+/// structures and words with random member lists; sizes printed at run time
+/// and through constants
+pub fn layout_program(c: &mut Choices) -> Program
+{
+	let mut g = Gen::new(c, Profile::exec());
+	g.scopes.push(Vec::new());
+	let n = 1 + g.c.draw(5);
+	for _ in 0..n
+	{
+		let idx = g.prog.structs.len();
+		if g.c.chance(1, 3)
+		{
+			// exactly filled word, members naturally aligned, may nest words
+			let bytes = *g.c.pick(&[8usize, 4, 2, 16, 1]);
+			let mut members = Vec::new();
+			let mut used = 0;
+			while used < bytes
+			{
+				let rest = bytes - used;
+				let words: Vec<usize> = (0..idx)
+					.filter(|i| {
+						g.prog.structs[*i]
+							.word_bytes
+							.map(|b| b <= rest && used % b.min(8) == 0)
+							.unwrap_or(false)
+					})
+					.collect();
+				g.next_member += 1;
+				let mname = format!("m{}", g.next_member);
+				if !words.is_empty() && g.c.chance(1, 3)
+				{
+					let w = *g.c.pick(&words);
+					used += g.prog.structs[w].word_bytes.unwrap();
+					members.push((mname, Ty::Named(w)));
+					continue;
+				}
+				let mut cands: Vec<Prim> = vec![
+					Prim::U8,
+					Prim::I8,
+					Prim::Bool,
+					Prim::Char8,
+					Prim::U16,
+					Prim::I16,
+					Prim::U32,
+					Prim::I32,
+					Prim::U64,
+					Prim::I64,
+				];
+				cands.retain(|p| p.bytes() <= rest && used % p.bytes() == 0);
+				let p = *g.c.pick(&cands);
+				used += p.bytes();
+				members.push((mname, Ty::Prim(p)));
+			}
+			g.prog.structs.push(StructDecl {
+				name: format!("W{}", idx),
+				word_bytes: Some(bytes),
+				members,
+				public: false,
+			});
+		}
+		else
+		{
+			let k = g.c.draw(6);
+			let mut members = Vec::new();
+			for _ in 0..k
+			{
+				g.next_member += 1;
+				let mname = format!("m{}", g.next_member);
+				let ty = match g.c.draw(7)
+				{
+					0 | 1 | 2 => Ty::Prim(*g.c.pick(ALL_PRIMS)),
+					3 =>
+					{
+						let p = *g.c.pick(ALL_PRIMS);
+						Ty::Array(Box::new(Ty::Prim(p)), g.c.draw(5), None)
+					}
+					4 => Ty::Ptr(Box::new(Ty::Prim(*g.c.pick(ALL_PRIMS)))),
+					_ =>
+					{
+						if idx > 0
+						{
+							let j = g.c.draw(idx);
+							if g.c.flag()
+							{
+								Ty::Named(j)
+							}
+							else
+							{
+								Ty::Array(Box::new(Ty::Named(j)), g.c.draw(4), None)
+							}
+						}
+						else
+						{
+							Ty::Prim(*g.c.pick(ALL_PRIMS))
+						}
+					}
+				};
+				members.push((mname, ty));
+			}
+			g.prog.structs.push(StructDecl {
+				name: format!("S{}", idx),
+				word_bytes: None,
+				members,
+				public: false,
+			});
+		}
+	}
+	let mut body = Vec::new();
+	let ns = g.prog.structs.len();
+	for i in 0..ns
+	{
+		let k = 1 + g.c.draw(4);
+		g.prog.consts.push(ConstDecl {
+			name: format!("SZ{}", i),
+			ty: Ty::Prim(Prim::Usize),
+			init: Expr::SizeOf(Ty::Named(i)),
+			public: false,
+		});
+		body.push(Stmt::Print(vec![
+			Expr::SizeOf(Ty::Named(i)),
+			Expr::Str(b" ".to_vec()),
+			Expr::Read(Place::var(&format!("SZ{}", i)), Ty::Prim(Prim::Usize)),
+			Expr::Str(b" ".to_vec()),
+			Expr::SizeOf(Ty::Array(Box::new(Ty::Named(i)), k, None)),
+			Expr::Str(b"\n".to_vec()),
+		]));
+	}
+	for _ in 0..g.c.draw(4)
+	{
+		let p = *g.c.pick(ALL_PRIMS);
+		let k = g.c.draw(6);
+		let m = 1 + g.c.draw(3);
+		body.push(Stmt::Print(vec![
+			Expr::SizeOf(Ty::Prim(p)),
+			Expr::Str(b" ".to_vec()),
+			Expr::SizeOf(Ty::Array(Box::new(Ty::Prim(p)), k, None)),
+			Expr::Str(b" ".to_vec()),
+			Expr::SizeOf(Ty::Array(
+				Box::new(Ty::Array(Box::new(Ty::Prim(p)), k, None)),
+				m,
+				None,
+			)),
+			Expr::Str(b"\n".to_vec()),
+		]));
+	}
+	g.prog.funcs.push(FuncDecl {
+		name: "main".into(),
+		params: Vec::new(),
+		ret: Some(Prim::I32),
+		body,
+		ret_expr: Some(lit(0, Prim::I32)),
+		public: false,
+		external: false,
+		head_only: false,
+	});
+	let mut order: Vec<Top> = (0..ns).map(Top::Struct).collect();
+	order.extend((0..ns).map(Top::Const));
+	order.push(Top::Func(0));
+	for i in (1..order.len()).rev()
+	{
+		let j = g.c.draw(i + 1);
+		order.swap(i, j);
+	}
+	g.prog.order = order;
+	g.prog
+}
